@@ -104,7 +104,12 @@ class _Unstring(ast.NodeTransformer):
     def visit_Subscript(self, node: ast.Subscript) -> Any:
         value = self.visit(node.value)
         lit = (isinstance(value, ast.Name) and value.id == 'Literal') or (isinstance(value, ast.Attribute) and value.attr == 'Literal')
-        sl = node.slice if lit else self.visit(node.slice)
+        ann = (isinstance(value, ast.Name) and value.id == 'Annotated') or (isinstance(value, ast.Attribute) and value.attr == 'Annotated')
+        if ann and isinstance(node.slice, ast.Tuple) and node.slice.elts:
+            # typing: only the first argument of Annotated is a type, the metadata are ordinary values
+            sl: Any = ast.Tuple(elts=[self.visit(node.slice.elts[0])] + list(node.slice.elts[1:]), ctx=node.slice.ctx)
+        else:
+            sl = node.slice if lit else self.visit(node.slice)
         return ast.Subscript(value=value, slice=sl, ctx=node.ctx)
 
     def visit_Constant(self, node: ast.Constant) -> Any:
@@ -252,7 +257,7 @@ DEFAULTS = ['(a + b)[0]', '(a or b)[0]', '(-a)[1]', '2 ** (a + b)[1]', '(a, b)[0
             "b\"it's\"", '{1, 2}', '-(a + b) * c']
 ANNOTS = ['int', 'None', "'None'", 'Optional[None]', "'int'", "'List[int]'", "List['A']", "Literal['a']", 'Optional["B"]', 'a.B', 'Callable[[int], str]', 'int | None', '"a.B"',
           'Tuple[int, ...]', "'Dict[str, \"A\"]'", 'C & "A | B"', '"A | B" & C', 'Tuple[()]', "Literal['A | B']", "typing.Literal['x', 1]", "'A' | 'B'",
-          "Annotated[int, 'meta']", "'Callable[..., \"A\"]'",
+          "Annotated[int, 'meta']", "Annotated['List[int]', 'not valid python', 3]", "t.Annotated[int, 'a | b']", "Optional[Annotated['A', 'unit']]", "'Callable[..., \"A\"]'",
           # Literal reached through any spelling: module aliases, nesting, inside a string annotation
           "t.Literal['r', 'w']", "Optional[te.Literal['r']]", "'t.Literal[\"r\", \"w\"]'", "x.y.Literal['int']", "Literal[Literal['a'], 'b']", "List[Literal['List[int]']]",
           "Dict['K', t.Literal['K']]", 'int | "str | None"', '2 * "n + 1"', '-"x + y"', '1 - "a - b"', '"a - b" - 1', 'A["B | C"] | "D"', '("a", "b")', 'x["y"].z', "'Optional[typing_extensions.Literal[\"A\"]]'"]
